@@ -40,6 +40,8 @@ ASSIGNOPS = ['sym:=', 'sym:+=', 'sym:-=', 'sym:*=', 'sym:/=', 'sym:%=',
              'sym:..=']
 COMPOUND = ASSIGNOPS[1:]
 TRIVIA = ['space', 'newline', 'comment']
+OPEN_BRACKETS = ['sym:(', 'sym:{', 'sym:[']
+CLOSE_BRACKETS = ['sym:)', 'sym:}', 'sym:]']
 BLOCK_END = ['kw:end', 'kw:else', 'kw:elseif', 'kw:until']
 
 
@@ -55,6 +57,8 @@ class P:
     def __init__(self, toks):
         self.all = toks                  # full list, trivia included
         self.pos = 0
+        self.depth = 0                   # open blocks + brackets
+        self.depths = {}                 # token index -> depth at the token
         self.high = -1                   # highest token index consumed
         self.fence = None                # short-if / ? line end (token index)
 
@@ -100,7 +104,22 @@ class P:
         self.pos = k + 1
         if k > self.high:
             self.high = k
+        # brackets: a closing bracket counts as already closed; an opening
+        # one opens after itself
+        if t.is_(CLOSE_BRACKETS):
+            self.depth -= 1
+        self.depths[k] = self.depth
+        if t.is_(OPEN_BRACKETS):
+            self.depth += 1
         return t.index
+
+    def open(self):
+        self.depth += 1
+
+    def close(self):
+        """Called *before* taking a closing token (it counts as already
+        closed)."""
+        self.depth -= 1
 
     def line_end_from(self, pos):
         """Index of the first newline token at/after pos (or len)."""
@@ -131,7 +150,10 @@ class P:
         return out
 
     def block_until(self, kinds, what):
+        """A block opened by the token just taken, up to its terminator."""
+        self.open()
         b = self.chunk()
+        self.close()
         self.take(kinds, what)
         return b
 
@@ -225,15 +247,21 @@ class P:
         cond = self.exp()
         if self.at(['kw:then']):
             self.take()
+            self.open()
             out = ['if', [cond, self.chunk()]]
             while self.at(['kw:elseif']):
+                self.close()
                 self.take()
                 c = self.exp()
                 self.take(['kw:then'], 'then')
+                self.open()
                 out.append([c, self.chunk()])
             if self.at(['kw:else']):
+                self.close()
                 self.take()
+                self.open()
                 out.append(['else', self.chunk()])
+            self.close()
             self.take(['kw:end'], 'end')
             return out
         # PICO-8 short form: if (cond) stats [else stats] <end of line>
@@ -428,10 +456,13 @@ def is_paren_only(exp):
             exp[1][1][0] == 'paren')
 
 
-def parse(toks):
-    """Skeleton of the whole program; raises Reject."""
+def parse(toks, want_depths=False):
+    """Skeleton of the whole program; raises Reject.  With want_depths also
+    the number of blocks and brackets open at each significant token."""
     p = P(toks)
     sk = p.chunk()
     if p.peek() is not None:
         raise Reject('unexpected token after the end of the program')
+    if want_depths:
+        return sk, p.depths
     return sk
